@@ -197,6 +197,8 @@ namespace
         int answer_ms = 30, parts = 2, busy_ms = 80, gone_ms = 15;
         bool gone_by_reset = false;
         bool sweeper       = false; // AcrossSweep: this connection sends the /sweep
+        bool big_file      = false; // AbortBigResponse: the large response is a file served with Http::serveFile
+        bool leaves_early  = false; // TimedParked: the client is gone before the time-out expires (the writer stays parked)
         std::string fail;
     };
 
@@ -251,7 +253,9 @@ namespace
             net::reset_close(fd);
             break;
         case AbortBigResponse:
-            net::send_all(fd, BIG);
+            // (as a served file: the descriptor the transport holds for the file is pending with the response
+            // and must be released when the connection goes, not only when the file has been sent)
+            net::send_all(fd, s.big_file ? std::string("GET /file/8388608 HTTP/1.1\r\nHost: x\r\n\r\n") : BIG);
             net::sleep_ms(30); // the server is now blocked writing 400 KiB into a 4 KiB window
             net::reset_close(fd);
             break;
@@ -263,6 +267,15 @@ namespace
             break;
         }
         case TimedParked: {
+            if (s.leaves_early)
+            {
+                // the request is complete and handled (writer parked, time-out armed); the client goes away before
+                // the 100 ms are over: the expiry finds nobody to answer, its timer must be released all the same
+                net::send_all(fd, "GET /timed/100/park HTTP/1.1\r\nHost: x\r\n\r\n");
+                net::sleep_ms(30);
+                ::close(fd);
+                break;
+            }
             if (!net::send_all(fd, "GET /timed/100/park HTTP/1.1\r\nHost: x\r\n\r\n") || !net::read_message(fd, carry, true, m, 5000, err))
                 s.fail = "no answer at all to a request whose response time-out (100 ms) expired: " + err;
             else if (m.status != 408)
@@ -371,8 +384,9 @@ namespace verif
                     s.end = OrderlyClose;
                 kinds.insert(int(s.end));
                 inflight |= s.partial || s.end == AbortBigResponse;
+                s.big_file = s.end == AbortBigResponse && s.partial_cut % 2 == 0; // derived, no choice consumed
                 if (desc.size() < 400)
-                    desc += std::to_string(s.complete_requests) + "req" + (s.partial ? "+partial@" + std::to_string(s.partial_cut) : "") + "/" + END_NAMES[s.end] + " ";
+                    desc += std::to_string(s.complete_requests) + "req" + (s.partial ? "+partial@" + std::to_string(s.partial_cut) : "") + "/" + END_NAMES[s.end] + (s.big_file ? "(a served file)" : "") + " ";
             }
             desc += "| ";
         }
@@ -426,13 +440,21 @@ namespace verif
                 for (auto& s : rb)
                     s.end = AcrossSweep;
                 rb[0].sweeper = true;
+                if (rb.size() % 2 == 0)
+                {
+                    // one more parked writer whose client leaves before the expiry (derived, no choice consumed)
+                    ConnScript e;
+                    e.end          = TimedParked;
+                    e.leaves_early = true;
+                    ra.push_back(e);
+                }
                 kinds.insert(int(TimedParked));
                 kinds.insert(int(AcrossSweep));
                 plan.push_back(ra);
                 plan.push_back(rb);
                 rounds += 2;
                 inflight = true;
-                desc += std::to_string(ra.size()) + "x response-timeout-expires(writer parked) | " + std::to_string(rb.size()) + "x open-across-sweep | ";
+                desc += std::to_string(ra.size()) + "x response-timeout-expires(writer parked" + (ra.back().leaves_early ? ", the last one's client gone before the expiry" : "") + ") | " + std::to_string(rb.size()) + "x open-across-sweep | ";
             }
         }
         {
